@@ -96,6 +96,11 @@ theorem otherPackageWrites_allowed : ∀ w ∈ otherPackageWrites,
     `Validate`-phase writes of `allowedObjectWrites` part of the initial state of evaluating threads.) -/
 theorem validate_call_sites : ∀ c ∈ validateCallSites, c.2 = "recursion" ∨ c.2 = "fresh" := by decide
 
+/-- **Generated side obligation**: no function on the parse / runtime-construction path looks at a
+    clock (`time.After`, `time.Now`, `time.Sleep`, a timer): a parse that gives up waiting for its
+    tokens after some milliseconds writes nothing and is still not a function of its input. -/
+theorem no_clock_on_parse_path : timeOnParsePath = [] := by decide
+
 /-- The extractor looked at the right code: the entry points exist and the
     functions that carried the defect are on the path it follows. -/
 theorem extractor_probes :
